@@ -54,6 +54,7 @@ type Root struct {
 	locals   map[string]bool
 	seenAssume map[string]bool
 	stateReads map[string]bool
+	slice    *sliceCache
 }
 
 type ModelInput struct {
